@@ -292,6 +292,33 @@ def startproc_slid(case):
     return False
 
 
+SIG_BOUNDARY_CALL = "procedure-boundary-at-a-block-end-slides-behind-the-entry-patch-of-the-next-block-after-a-patch-ending-in-an-internal-call"
+
+
+def boundary_after_call(case, issue):
+    """finding: the end of a block carries '.cfi_endproc .cfi_startproc' (one procedure ends, the next begins with the
+    next block), a patch whose last instruction calls a function of the module is inserted at that end, and another
+    patch is inserted at offset 0 of the next block"""
+    if issue["kind"] not in ("patch-state", "patch-coverage", "patch-directive"):
+        return False
+    text = emodify.flat_of(case)
+    internal = {y["name"] for d in text if d["kind"] == "code" for y in d["syms"] if not y.get("at_end")}
+    for i, d in enumerate(text):
+        if d["kind"] != "code" or i + 1 >= len(text) or text[i + 1]["kind"] != "code" or text[i + 1].get("_sect") != d.get("_sect"):
+            continue
+        size = emodify.block_size(d)
+        if not any(k == size and {".cfi_endproc", ".cfi_startproc"} <= {x[0] for x in ds} for k, ds in (d.get("cfi") or [])):
+            continue
+        def last_call(asm):
+            lines = [l.split() for l in (asm or "").splitlines() if l.strip() and not l.strip().startswith(".") and not l.strip().endswith(":")]
+            return bool(lines) and lines[-1][0] == "call" and len(lines[-1]) == 2 and lines[-1][1] in internal
+        at_end = any(e["block"] == i and e["op"] != "delete" and e["off"] + e.get("len", 0) == size and last_call(e.get("asm")) for e in case.get("edits", []))
+        entry = any(e["block"] == i + 1 and e["op"] == "insert" and e["off"] == 0 for e in case.get("edits", []))
+        if at_end and entry:
+            return True
+    return False
+
+
 def end_of_procedure(case, o, issue):
     """finding: the patch sits exactly on a .cfi_endproc"""
     if issue["kind"] != "patch-directive":
@@ -340,7 +367,8 @@ def flush(ctx, pending):
             for e in case.get("edits", []):
                 if e.get("_tail"):
                     ctx.count("issue-with:" + e["_tail"])
-            sig = "C08:" + (SIG_END_OF_PROC if end_of_procedure(case, o, issue) else SIG_STARTPROC_SLID if startproc_slid(case) else issue["kind"])
+            sig = "C08:" + (SIG_END_OF_PROC if end_of_procedure(case, o, issue) else SIG_STARTPROC_SLID if startproc_slid(case)
+                            else SIG_BOUNDARY_CALL if boundary_after_call(case, issue) else issue["kind"])
             ctx.violation(sig, issue["msg"], case)
     pending.clear()
 
@@ -350,6 +378,12 @@ TAIL_PATCHES = [
     ("tail", "pushq %%rax\n.cfi_adjust_cfa_offset 8\njmp %s\n.cfi_adjust_cfa_offset -8"),
     # ... the same with a label behind it
     ("tail-label", "testq %%rdi, %%rdi\nje .Lskip\npushq %%rax\n.cfi_adjust_cfa_offset 8\njmp %s\n.cfi_adjust_cfa_offset -8\n.Lskip:"),
+    # ... with a label behind it that nothing refers to (the empty block that carries the directive is merged into
+    # the label's block)
+    ("tail-unreferenced-label", "pushq %%rax\n.cfi_adjust_cfa_offset 8\njmp %s\n.cfi_adjust_cfa_offset -8\n.Lend:"),
+    ("tail-two-unreferenced-labels", "pushq %%rax\n.cfi_adjust_cfa_offset 8\njmp %s\n.cfi_adjust_cfa_offset -8\n.Lend:\n.Lend2:"),
+    # an early exit: the state is restored behind a return, in front of a label nothing refers to
+    ("early-exit", ".cfi_remember_state\ntestq %%rdi, %%rdi\njne .Lgo\n.cfi_def_cfa_offset 8\njmp %s\n.Lgo:\n.cfi_restore_state\n.Lafter:"),
     # directives between two labels at the head of the patch
     ("head-labels", ".cfi_remember_state\n.La:\n.cfi_def_cfa_offset 32\n.Lb:\nnop\n.cfi_restore_state"),
 ]
